@@ -2,6 +2,7 @@
 //! mini-mcmc implementation in /repo's working tree (hooks on), prints one JSON result per line.
 mod c01;
 mod c02;
+mod c03;
 mod c05;
 mod c07;
 mod c09;
@@ -27,6 +28,7 @@ fn main() {
         let res = util::guarded(|| match pid.as_str() {
             "C01" => c01::run(&case),
             "C02" => c02::run(&case),
+            "C03" | "C04" => c03::run(&case),
             "C05" => c05::run(&case),
             "C07" | "C18" => c07::run(&case),
             "C08" => c07::run08(&case),
